@@ -78,9 +78,13 @@ Variable h : bytes -> N.
 Fixpoint path_bits (parts : list bytes) (idx : N) : N :=
   match parts with
   | [] => 0
-  | p :: r => (if negb (bytes_eqb p plus) && negb (bytes_eqb p hashs) then N.shiftl 1 (22 - idx) else 0)
-              + path_bits r (idx + 1)
+  | p :: r => N.lor (if negb (bytes_eqb p plus) && negb (bytes_eqb p hashs) then N.shiftl 1 (22 - idx) else 0)
+                    (path_bits r (idx + 1))
   end.
+
+(* the core of SetTarget on levels: (bit path, hash of the joined levels) *)
+Definition target_of (parts : list bytes) (wildcard : bool) : N * N :=
+  (N.lor (if wildcard then 0 else 8388608) (path_bits parts 0), h (join_with sep parts)).
 
 (* Key.SetTarget(channel) *)
 Definition set_target (k : key) (channel : bytes) : res terr key :=
@@ -93,8 +97,7 @@ Definition set_target (k : key) (channel : bytes) : res terr key :=
       let parts := if wildcard then drop_last parts0 else parts0 in
       if 23 <? len parts then Err TargetTooLong
       else
-        let bitPath := (if wildcard then 0 else 8388608) + path_bits parts 0 in
-        let value := h (join_with sep parts) in
+        let '(bitPath, value) := target_of parts wildcard in
         Ok (set_bytes (set_bytes k 12 [N.shiftr bitPath 16 mod 256; N.shiftr bitPath 8 mod 256; bitPath mod 256])
                       16 (be32 value))
   | [] => Err TargetInvalid
@@ -117,28 +120,30 @@ Fixpoint rewrite_parts (parts : list bytes) (idx : N) (path : N) : option (list 
     else match rewrite_parts r (idx + 1) path with Some r' => Some (plus :: r') | None => None end
   end.
 
+(* the core of ValidateChannel on the levels of the request (a trailing '#' already removed);
+   [first] is the hash of the request's first level (Channel.Target()) *)
+Definition validate_parts (path target : N) (parts : list bytes) (first : N) : bool :=
+  if path =? 0 then
+    if target =? 1325880984 then true else target =? first
+  else
+    let md0 := max_depth_loop 23 0 path in
+    let maxDepth := if md0 =? 0 then len parts else md0 in
+    let exact := N.testbit path 23 in
+    if (len parts <? maxDepth) || (exact && negb (len parts =? maxDepth)) then false
+    else match rewrite_parts parts 0 path with
+         | None => false
+         | Some parts' => h (join_with sep (take maxDepth parts')) =? target
+         end.
+
 (* Key.ValidateChannel(ch) on a parsed channel *)
 Definition validate_channel (k : key) (ch : chan) : bool :=
   match rev (c_chan ch) with
   | [] => false
   | lastc :: rtopic =>
-    let target := key_target k in
-    let path := key_path k in
-    if path =? 0 then
-      if target =? 1325880984 then true else target =? hd 0 (c_query ch)
-    else
-      let topic := if lastc =? sep then rev rtopic else c_chan ch in
-      let parts0 := split_on sep topic [] in
-      let wc := last_is parts0 hashs in
-      let parts := if wc then drop_last parts0 else parts0 in
-      let md0 := max_depth_loop 23 0 path in
-      let maxDepth := if md0 =? 0 then len parts else md0 in
-      let exact := N.testbit path 23 in
-      if (len parts <? maxDepth) || (exact && negb (len parts =? maxDepth)) then false
-      else match rewrite_parts parts 0 path with
-           | None => false
-           | Some parts' => h (join_with sep (take maxDepth parts')) =? target
-           end
+    let topic := if lastc =? sep then rev rtopic else c_chan ch in
+    let parts0 := split_on sep topic [] in
+    let parts := if last_is parts0 hashs then drop_last parts0 else parts0 in
+    validate_parts (key_path k) (key_target k) parts (hd 0 (c_query ch))
   end.
 
 (* ---- contracts and Authorize ---- *)
